@@ -247,6 +247,10 @@ impl StreamsState {
         self.pending.clear();
         self.send_streams = 0;
         self.data_sent = 0;
+        self.unacked_data = 0;
+        // The remembered limit no longer applies; the server's new transport parameters, which may
+        // be lower, are about to be installed
+        self.max_data = 0;
         self.connection_blocked.clear();
     }
 
